@@ -669,7 +669,9 @@ fn mixed_scale_case(out: &mut Out, rng: &mut Rng) {
             // For a containment failure on a proper (>= 3 point, subset, duplicate-free) hull report
             // how far outside the worst point is, relative to the largest coordinate magnitude.
             if let Some(msg) = &fail {
-                if msg.contains("outside hull edge") && hi.len() >= 3 {
+                if ((msg.contains("outside hull edge") || msg.contains("not strictly convex")) && hi.len() >= 3)
+                    || (msg.contains("outside 2-point hull") && hi.len() == 2)
+                {
                     let scale = pts.iter().map(|p| p.0.abs().max(p.1.abs())).max().unwrap_or(1).max(1) as f64;
                     let mut worst = 0.0f64;
                     for i in 0..hi.len() {
@@ -677,8 +679,8 @@ fn mixed_scale_case(out: &mut Out, rng: &mut Rng) {
                         let len = (((b.0 - a.0) as f64).powi(2) + ((b.1 - a.1) as f64).powi(2)).sqrt();
                         for &q in &pts {
                             let c = cross(a, b, q);
-                            if c < 0 && len > 0.0 {
-                                worst = worst.max(-(c as f64) / len / scale);
+                            if len > 0.0 && (c < 0 || hi.len() == 2) {
+                                worst = worst.max((c as f64).abs() / len / scale);
                             }
                         }
                     }
